@@ -11,7 +11,9 @@ def run(prog, rep, tier):
                   "value_producer (21) numbers the values it yields with a post-incremented member counter that every constructor initialises to 0 "
                   "and that is changed nowhere else in next(), or with literal 0; R5: counters used for numbering inside ops are reset per input "
                   "(each operation numbers its results afresh); P3: an operand of an unsupported type makes overload_op print a diagnostic on stderr "
-                  "and yield nothing, and makes a predicate word answer `fail`.")
+                  "and yield nothing, and makes a predicate word answer `fail`; R7: in next() of every word op (overload dispatch, once/yielding "
+                  "overload adapters, shuffles, pos/type, the radix casts) every CFG path from the success edge of an upstream pull to a `no stack` return "
+                  "passes another pull: no result for one input never ends the stream for the following inputs.")
     rep.not_decided = "what the words compute (string and sequence algebra, embedded NUL, needles longer than haystacks, radix conversion)."
     apply(rep, "P1", "results are numbered from a zero-initialised counter", r_core.p1(prog), 18)
     apply(rep, "P1c", "computed results are fresh values; only shuffling words re-push operands", r_core.p1c(prog), 15)
@@ -26,6 +28,11 @@ def run(prog, rep, tier):
     apply(rep, "P5", "string words agree with the byte-string model incl. empty operands, embedded NUL, bytes >= 0x80 (source evaluation)", r_core.p5(prog, tier), 9)
     apply(rep, "P6", "sequence words agree with the list model incl. empty operands and needles longer than haystacks (source evaluation)", r_core.p6(prog, tier), 9)
     apply(rep, "P7", "dup/over/swap/rot/drop realise the before/after table of their documentation, copies are clones, the type profile follows (source evaluation)", r_core.p7(prog), 5)
+    r7 = r_stream.r7(prog)
+    words = ("R7:op_overload<", "R7:op_once_overload<", "R7:op_yielding_overload<", "R7:overload_op::", "R7:op_dup::", "R7:op_over::", "R7:op_swap::",
+             "R7:op_rot::", "R7:op_drop::", "R7:op_pos::", "R7:op_type::", "R7:(anonymous namespace)::op_cast::")
+    apply(rep, "R7", "a word that produces no result for one input (unsupported operand, failed conversion) goes on to the next input instead of ending the stream",
+          ([i for i in r7[0] if i[0].startswith(words)], [f for f in r7[1] if f["key"].startswith(words)]), 60)
     import r_pure
     apply(rep, "Q4c", "copies of a sequence (dup, over, reading a name) never alias storage that `add` mutates in place: word results depend on the values, not on how the stack was built", r_pure.q4c(prog), 3)
     maybe_mutants("C11", rep, tier)
